@@ -5,10 +5,13 @@ SCH = ["pedersen-bls-chained", "pedersen-bls-unchained", "bls-unchained-g1-rfc93
        "bls-bn254-unchained-on-g1"]
 
 # participants: 0..5 good, 6 bad self-signature, 7 undecodable key, 8 = clone of 0 (same address, attacker key),
-# 9 = clone of 1, 10 = clone of 3, 11 = address and self-signature of 1 with another key
+# 9 = clone of 1, 10 = clone of 3, 11 = address and self-signature of 1 with another key,
+# 12 = participant 1 whose signature field holds: its signature, the framing of a leaver entry for 2, and 2's signature,
+# 13 = participant 0 whose signature field holds: its signature, the framing of a remainer entry for 1, and 1's signature
 GOOD = [0, 1, 2, 3, 4, 5]
 CLONE = {8: 0, 9: 1, 10: 3}
-ALIAS = {8: 0, 9: 1, 10: 3, 11: 1}   # index -> index of the participant whose address it carries
+ALIAS = {8: 0, 9: 1, 10: 3, 11: 1, 12: 1, 13: 0}   # index -> index of the participant whose address it carries
+EMBED = {12: (1, "Leaver", 2), 13: (0, "Remainer", 1)}
 
 
 def header(scheme):
@@ -20,6 +23,8 @@ def header(scheme):
     for c, o in CLONE.items():
         ops.append(f"mkpart {c} 0 {scheme} clone:{o}")
     ops.append(f"mkpart 11 0 {scheme} keyswap:1")
+    for i, (j, role, k) in EMBED.items():
+        ops.append(f"mkpart {i} 0 {scheme} embed:{j}:{role}:{k}")
     return ops
 
 
@@ -49,7 +54,7 @@ MUTATIONS = ["epoch-1", "epoch+1", "epoch+5", "thr0", "thr-high", "thr-low", "ti
              "leader-joining", "no-remaining", "beaconid", "period+1", "catchup+1", "leader-clone", "member-clone",
              "swap-join-remain", "leaver-dropped", "joiner-extra", "member-keyswap", "dup-member-drop", "dup-member-leave",
              "move-remain-to-leave", "move-leave-to-remain", "clone-joiner", "move-join-to-remain", "move-remain-to-join",
-             "catchup0", "period0"]
+             "catchup0", "period0", "swallow-leaver", "swallow-remainer"]
 
 
 def mutate(rng, t, kind, scheme):
@@ -127,6 +132,11 @@ def mutate(rng, t, kind, scheme):
         return t.copy(joining=list(t.joining[:-1]), remaining=[t.joining[-1]] + list(t.remaining))
     if kind == "move-remain-to-join" and len(t.remaining) >= 2 and t.remaining[0] != t.leader:
         return t.copy(joining=list(t.joining) + [t.remaining[0]], remaining=list(t.remaining[1:]))
+    if kind == "swallow-leaver" and t.remaining and t.remaining[-1] == 1 and t.leaving and t.leaving[0] == 2:
+        # same signed BYTES: the leaver entry of 2 sits inside the signature field of the last remainer
+        return t.copy(remaining=list(t.remaining[:-1]) + [12], leaving=list(t.leaving[1:]))
+    if kind == "swallow-remainer" and len(t.remaining) >= 2 and t.remaining[0] == 0 and t.remaining[1] == 1 and t.leader != 0:
+        return t.copy(remaining=[13] + list(t.remaining[2:]))
     if kind == "catchup0":
         return t.copy(catchup=0 if t.catchup else 7)
     if kind == "period0":
@@ -295,6 +305,12 @@ def directed_histories(scheme):
             pre = header(scheme) + [f"reset default {sut} {scheme}"] + (first if sut in (1, 2) else [])
             hs.append(pre + [pkt("proposal/" + m.tok(), m.leader, signer, signed_terms=m), "dump"])
             hs.append(pre + [pkt("proposal/" + m.tok(), 0, 0, signed_pkt="proposal/" + t2.tok(), signed_terms=t2), "dump"])
+    # a newcomer (no previous group to compare with) is shown the terms of shape 2 with the leaver swallowed into the signature
+    # field of the last remainer: the signed bytes are those of the genuine terms
+    tg = shapes[2]
+    tsw = mutate(_R(), tg, "swallow-leaver", scheme)
+    pre3 = header(scheme) + [f"reset default 3 {scheme}"]
+    hs.append(pre3 + [pkt("proposal/" + tsw.tok(), 0, 0, signed_pkt="proposal/" + tg.tok(), signed_terms=tg), "dump"])
     # the same member seen through the operator's command (leader proposing mutated options)
     pre0 = header(scheme) + [f"reset default 0 {scheme}", f"cmd initial O1:2:@+3600:@+100:{scheme}:5:30:0,1,2", "cmd execute",
                              "complete G:101:@+100:abcd:0,1,2 1"]
